@@ -337,6 +337,11 @@ func runExt4Case(prop string, c core.Case, env *core.Env) core.Result {
 			return false
 		}
 		if ok {
+			// the statement's criterion is the exit status; a complaint e2fsck itself does not count as an
+			// error (it still exits 0) is recorded as an observation
+			if strings.Contains(out, "? no") {
+				res.Count("e2fsck.exit_0_with_complaint/"+fsckClass(out), 1)
+			}
 			return true
 		}
 		cause := fsckClass(out)
